@@ -40,6 +40,20 @@ theorem C08_excl (w : FsWorld) (path : String) (node : FsNode) (h : w.lookup pat
   rw [h]
   simp only [hf, if_true]
 
+/-! ### finding F11 (open, recorded in known_findings.json): entries of 4 GiB and more
+
+  The gate has no size condition — the first add of any key and value is accepted (`F11_accepted`), as C08's "if and only
+  if" demands — but the three header fields of an entry go through `mtbl_varint_encode32`: a value of `2^32 + n` bytes is
+  declared as `n` bytes (`F11_witness`), so the finished file does not hold the accepted entry.  Every theorem about what
+  a file holds (C01, C08_content via C01_roundtrip_any, C09, C10) therefore carries `SizesOK.lens` (< 2^32); the real code is
+  run at the excluded point by the `wa.huge` probe of the thorough tier, which reproduces the finding. -/
+theorem F11_accepted (cfg : WCfg) (pre : Nat) (k v : Bytes) : ((W.new cfg pre).add k v).1 = .success :=
+  (C08_gate _ k v).mpr (Or.inl rfl)
+
+theorem F11_witness (e : Entry) (n : Nat) (hn : n < 4294967296) (hv : e.val.length = 4294967296 + n) (sh : Nat) :
+    encEntry sh e = venc32t sh ++ venc32t (e.key.length - sh) ++ venc32 n ++ e.key.drop sh ++ e.val := by
+  simp [encEntry, venc32t, hv, Nat.add_mod_left, Nat.mod_eq_of_lt hn]
+
 /-! non-vacuity -/
 example : gateSpec none [⟨[1], []⟩, ⟨[1], []⟩, ⟨[0, 255], []⟩, ⟨[1, 0], []⟩, ⟨[0x80], []⟩] =
     [.success, .failure, .failure, .success, .success] := by decide
